@@ -13,7 +13,7 @@ RULE = (
     "constants), points_to_evaluate lists (partial, duplicate before and after imputation, empty, None), schedulers FIFO random / grid / "
     "GP Bayesian optimisation, Hyperband stopping / promotion with random and GP multi-fidelity searchers, synchronous Hyperband, DEHB, "
     "PBT, regularised evolution, driven by the protocol driver through histories with results, failures and pending trials (1-4 "
-    "workers); finite spaces (size <= 12) are driven to exhaustion. Oracle: every suggested configuration has all keys of the space, "
+    "workers); finite spaces (size <= 12) are driven to exhaustion; GP histories include NaN metric values (diverged runs stay NaN), all searcher_data policies and grace periods 1-2, and a dedicated sub-check drives tiny finite spaces (<= 9 configurations) to exhaustion with GP searchers, NaN values and scripts that end early. Oracle: every suggested configuration has all keys of the space, "
     "constants unchanged (except the documented max_resource_attr override), every value of exactly the domain's type and a member by "
     "the harness's own predicate; the first suggestions equal the harness's re-implementation of the mid-point imputation (duplicates "
     "removed after imputation) in order; no-repeat searchers never return a configuration whose match string equals an earlier "
@@ -433,18 +433,19 @@ def run_history(t, fam, finite):
             # agree in the first seven digits of every value)
             if ms in seen_ms:
                 prev = seen_ms[ms]
-                # values of the earlier trial which the data policy hands to the searcher (FIFO: all; Hyperband 'rungs': rung levels,
-                # max_t and the final result of a completed trial; 'all' / 'rungs_and_last': every value)
+                # values of the earlier trial which the data policy hands to the searcher (FIFO: all; Hyperband 'rungs': rung levels
+                # and max_t; 'all' / 'rungs_and_last': every value)
                 policy = getattr(inner, "searcher_data", "all")
                 rung_set = set(getattr(inner, "rung_levels", []) or []) | {getattr(inner, "max_t", None)}
                 lv_prev = sorted(lv_ for (tid_, lv_) in curve if tid_ == prev)
                 vals = [
                     curve[(prev, lv_)] for lv_ in lv_prev
-                    if policy != "rungs" or lv_ in rung_set or (lv_ == lv_prev[-1] and prev in d.completed)
+                    if policy != "rungs" or lv_ in rung_set
                 ]
-                if gp and prev not in d.running and prev not in d.failed and (not vals or all(v != v for v in vals)) and any(curve[(prev, lv_)] != curve[(prev, lv_)] for lv_ in lv_prev):
-                    # listed finding: the model-based searchers skip NaN values, a trial which only ever reported NaN leaves no trace
-                    raise Violation("repeated-suggestion:trial-with-only-nan-results", f"{where}: {cfg} equals the configuration of trial {prev}, of which only NaN values reached the searcher ({len(vals)} results) and which has ended")
+                if gp and prev not in d.running and prev not in d.failed and (not vals or all(v != v for v in vals)):
+                    # listed finding: a trial which has ended and of which no finite value reached the searcher (the model-based
+                    # searchers skip NaN; with 'rungs' a script may end below the first rung level) leaves no trace
+                    raise Violation("repeated-suggestion:ended-trial-without-observation", f"{where}: {cfg} equals the configuration of trial {prev}, which has ended and of which no finite value reached the searcher (policy {policy}, values handed over: {vals})")
                 raise Violation(
                     f"repeated-suggestion:{fam}",
                     f"{where}: {cfg} equals the configuration of trial {seen_ms[ms]} (state: {'failed' if seen_ms[ms] in d.failed else 'pending/running' if seen_ms[ms] in d.running else 'finished'})",
